@@ -84,10 +84,21 @@ class PyPackageSearcher(AbstractSearcher):
                 debug.logger & debug.flagSearcher and debug.logger(
                     '%s is an importable egg at %s' % (self._package, os.path.split(p.__file__)[0]))
 
-            elif hasattr(p, '__file__'):
+            elif getattr(p, '__file__', None):
                 debug.logger & debug.flagSearcher and debug.logger(
                     '%s is not an egg, trying it as a package directory' % self._package)
                 return PyFileSearcher(os.path.split(p.__file__)[0]).fileExists(mibname, mtime, rebuild=rebuild)
+
+            elif getattr(p, '__path__', None):
+                # a namespace package: directories, no __init__ module
+                for path in p.__path__:
+                    try:
+                        return PyFileSearcher(path).fileExists(mibname, mtime, rebuild=rebuild)
+
+                    except error.PySmiFileNotFoundError:
+                        continue
+
+                raise error.PySmiFileNotFoundError('no compiled file %s found in %s' % (mibname, self._package), searcher=self)
 
             else:
                 raise error.PySmiFileNotFoundError('%s is neither importable nor a file' % self._package, searcher=self)
